@@ -18,6 +18,7 @@ import (
 	"math/rand"
 	"os"
 	"reflect"
+	"regexp"
 	"runtime"
 	"sort"
 	"strings"
@@ -78,7 +79,7 @@ type hstmt struct {
 
 type aEvent struct {
 	Ev     string   `json:"ev"`
-	Src    string   `json:"src"` // cut | whole | random | long
+	Src    string   `json:"src"`  // cut | whole | random | long
 	Hist   []hstmt  `json:"hist"` // src long: only the last statements of the history
 	Hlen   int      `json:"hlen"` // number of statements parsed on this parser before the probe
 	Text   string   `json:"text"`
@@ -606,6 +607,8 @@ func emitProbe(p *grammar.Parser, src string, hs []hstmt, hlen int, hist []strin
 	stats["a:"+src]++
 }
 
+var semMax = 40
+
 func historyMode(sents []sentence, nbases, nprobes, nrandom, nlong, longLen, longEvery int) {
 	c := &gram.Concretizer{Rng: rng}
 	// statements the semantic grammar accepts on a fresh parser, by statement kind (first token)
@@ -614,10 +617,15 @@ func historyMode(sents []sentence, nbases, nprobes, nrandom, nlong, longLen, lon
 	if len(sents) == 0 {
 		must(fmt.Errorf("no sentences"))
 	}
+	var semPairs [][2]string
+	var semBad []stmt // grammatical statements that a semantic hook rejects (unknown binding in ORDER BY, GROUP BY, ...)
 	for _, s := range sents {
 		text := c.Text(s.S)
 		p, _ := newSemParser()
 		if _, ok, _ := parseWith(p, text); !ok {
+			if parsePlain(text, nil) && len(semBad) < 400 {
+				semBad = append(semBad, stmt{s.S, text})
+			}
 			continue
 		}
 		k := s.S[0].K
@@ -706,6 +714,105 @@ func historyMode(sents []sentence, nbases, nprobes, nrandom, nlong, longLen, lon
 			}
 		}
 	}
+	// (1b) every statement that is grammatical but rejected by a semantic hook (the hook returns from the middle of its
+	// work), then every probe; further variants of such statements are made by renaming one binding of a good statement
+	// where it is USED (ORDER BY / GROUP BY / HAVING / FILTER ... then name something the statement does not bind)
+	hasKind := func(b stmt, k string) bool {
+		for _, t := range b.toks {
+			if t.K == k {
+				return true
+			}
+		}
+		return false
+	}
+	ordered := append([]stmt{}, good...)
+	sort.SliceStable(ordered, func(i, j int) bool { return hasKind(ordered[i], "ORDER") && !hasKind(ordered[j], "ORDER") })
+	for _, b := range ordered {
+		if len(semPairs) >= 4*semMax {
+			break
+		}
+		for tries := 0; tries < 2; tries++ {
+			texts := c.Texts(b.toks)
+			var idx []int
+			inUse := false // after GROUP / ORDER / HAVING: bindings are used there, not bound
+			for i, t := range b.toks {
+				if t.K == "ORDER" || t.K == "GROUP" || t.K == "HAVING" {
+					inUse = true
+				}
+				if t.K == "BINDING" && (inUse || (tries == 1 && i > len(b.toks)/2)) {
+					idx = append(idx, i)
+				}
+			}
+			if len(idx) == 0 {
+				break
+			}
+			goodText := gram.Join(b.toks, texts)
+			// the same statement with every sorting direction turned round (same names)
+			ftoks, ftexts := append([]gram.Tok{}, b.toks...), append([]string{}, texts...)
+			flipped := false
+			for i, t := range ftoks {
+				if t.K == "ASC" {
+					ftoks[i].K, ftexts[i], flipped = "DESC", "desc", true
+				} else if t.K == "DESC" {
+					ftoks[i].K, ftexts[i], flipped = "ASC", "asc", true
+				}
+			}
+			texts[idx[rng.Intn(len(idx))]] = "?zz9"
+			text := gram.Join(b.toks, texts)
+			p, _ := newSemParser()
+			if _, ok, _ := parseWith(p, text); !ok && parsePlain(text, nil) {
+				semBad = append(semBad, stmt{b.toks, text})
+				if len(semPairs) < 4*semMax {
+					semPairs = append(semPairs, [2]string{text, goodText})
+					if flipped {
+						semPairs = append(semPairs, [2]string{text, gram.Join(ftoks, ftexts)})
+					}
+				}
+			}
+		}
+	}
+	// a key the statement does not output APPENDED to the ORDER BY list (the check has then already gone through the
+	// other keys), followed by the same statement with the direction of its first key turned round
+	orderRe := regexp.MustCompile(`(?i)(order by )(\?[a-z0-9_]+)( asc| desc)?([^;]*?)( having | before | after | between | limit | ;)`)
+	for _, b := range ordered {
+		if !hasKind(b, "ORDER") || len(semPairs) >= 8*semMax {
+			continue
+		}
+		m := orderRe.FindStringSubmatchIndex(b.text)
+		if m == nil {
+			continue
+		}
+		bad := b.text[:m[10]] + " , ?zz9" + b.text[m[10]:]
+		dir := " desc"
+		if m[6] >= 0 && strings.EqualFold(strings.TrimSpace(b.text[m[6]:m[7]]), "desc") {
+			dir = " asc"
+		}
+		turned := b.text[:m[5]] + dir + b.text[m[8]:]
+		p, _ := newSemParser()
+		if _, ok, _ := parseWith(p, bad); !ok && parsePlain(bad, nil) {
+			semPairs = append(semPairs, [2]string{bad, turned}, [2]string{bad, b.text})
+		}
+	}
+	// the rejected statement, then the statement it was made from (same names) and that statement with its sorting
+	// directions turned round: what the hook remembered of the rejected one meets the same names again
+	for _, pr := range semPairs {
+		fp, _ := newSemParser()
+		if _, ok, _ := parseWith(fp, pr[1]); ok {
+			emitA("sem-rejected", []string{pr[0]}, pr[1])
+		}
+	}
+	stats["a:sem-rejected-statements"] = len(semBad)
+	nsb := len(semBad)
+	if nsb > semMax {
+		nsb = semMax
+	}
+	for _, i := range rng.Perm(len(semBad))[:nsb] {
+		for _, p := range probes {
+			emitA("sem-rejected", []string{semBad[i].text}, p.text)
+		}
+		// ... and the same statement again, corrected (the good statement it was made from uses the same names)
+		emitA("sem-rejected", []string{semBad[i].text}, c.Text(semBad[i].toks))
+	}
 	// (2) seeded random histories of 2..6 statements (whole, cut, mutated)
 	var allKinds []string
 	for _, tt := range gram.AllKinds() {
@@ -719,11 +826,13 @@ func historyMode(sents []sentence, nbases, nprobes, nrandom, nlong, longLen, lon
 		var hist []string
 		for j := 0; j < n; j++ {
 			b := all[rng.Intn(len(all))]
-			switch rng.Intn(3) {
-			case 0:
+			switch x := rng.Intn(4); {
+			case x == 0:
 				hist = append(hist, b.text)
-			case 1:
+			case x == 1:
 				hist = append(hist, cutText(b, 1+rng.Intn(len(b.toks)), garbage[rng.Intn(len(garbage))]))
+			case x == 2 && len(semBad) > 0:
+				hist = append(hist, semBad[rng.Intn(len(semBad))].text)
 			default:
 				hist = append(hist, c.Text(mutate(b.toks, allKinds)))
 			}
@@ -809,6 +918,7 @@ func main() {
 	nbases := fs.Int("bases", 20, "history mode: statements cut at every position")
 	nprobes := fs.Int("probes", 10, "history mode: probe statements")
 	nrandom := fs.Int("random", 200, "history mode: random histories")
+	fs.IntVar(&semMax, "sem-rejected", 40, "history mode: number of semantically rejected statements each followed by every probe")
 	nlong := fs.Int("long", 0, "history mode: number of long histories on one parser")
 	longLen := fs.Int("long-len", 12000, "history mode: statements per long history")
 	longEvery := fs.Int("long-every", 400, "history mode: a probe after every this many statements of a long history")
